@@ -52,7 +52,38 @@ def load_known():
         return json.load(f)
 
 
+class scoped_tmp:
+    """every temporary file or directory made while a unit runs (by the models' native replays, by the bounded
+    units, and by the repository's own on-disk buffer classes, which never remove theirs) lives under one directory
+    that is removed afterwards"""
+
+    def __enter__(self):
+        import tempfile
+        self.old = tempfile.tempdir
+        self.old_env = os.environ.get("TMPDIR")
+        self.d = tempfile.mkdtemp(prefix="pyvc_run_")
+        tempfile.tempdir = self.d
+        os.environ["TMPDIR"] = self.d
+        return self
+
+    def __exit__(self, *a):
+        import shutil
+        import tempfile
+        tempfile.tempdir = self.old
+        if self.old_env is None:
+            os.environ.pop("TMPDIR", None)
+        else:
+            os.environ["TMPDIR"] = self.old_env
+        shutil.rmtree(self.d, ignore_errors=True)
+        return False
+
+
 def _task(a):
+    with scoped_tmp():
+        return _task_inner(a)
+
+
+def _task_inner(a):
     idx, cfg_i, tier, known = a
     unit = verify.UNITS[idx]
     cfgs = unit.configs_for(tier)
@@ -122,6 +153,11 @@ def main(argv=None):
         return do_replay(args.replay)
     prop = args.prop
     t0 = time.time()
+    with scoped_tmp():
+        return _main_run(args, prop, t0, seed)
+
+
+def _main_run(args, prop, t0, seed):
     known = load_known()
     active = {}
     kf_lines = []
